@@ -98,8 +98,8 @@ prop(
 
 prop(
     "C12",
-    rules=["C12-R1", "C12-R2", "C12-R3", "C12-R4", "X-WMW", "X-EXT@ctor", "X-EXT@grower", "C12-R5", ],
-    mir_rules=[S.rule_creator, S.rule_remover, S2.rule_push_guards, S2.rule_grower, S2.rule_populate, S2.rule_ctor, S2.rule_accessors, S2.rule_who_may, E.rule_layout, SP.rule_delegations],
+    rules=["C12-R1", "C12-R2", "C12-R3", "C12-R4", "X-WMW", "X-EXT@ctor", "X-EXT@grower", "C12-R5", "C12-R6"],
+    mir_rules=[S2.rule_cloner, S.rule_creator, S.rule_remover, S2.rule_push_guards, S2.rule_grower, S2.rule_populate, S2.rule_ctor, S2.rule_accessors, S2.rule_who_may, E.rule_layout, SP.rule_delegations],
     floors={"C12-R1": lambda c: 4 * n_storages(c), "C12-R4": lambda c: 4 * n_storages(c), "C12-R2": lambda c: 18 * n_storages(c), "C12-R3": lambda c: 4 * n_storages(c), "X-WMW": lambda c: 10 * n_storages(c)},
     explanation="Static analysis. Decides: C12-R1 len changes by exactly +1 in the creator and -1 in the remover, capacity is written by neither; X-WMW len/capacity/free_head/version are written "
     "only by the functions whose role allows it and only through &mut self; C12-R2 push grows iff len>=capacity and panics iff grow()==false, push_within_capacity returns Err(argument) iff len>=capacity and never grows, "
